@@ -129,7 +129,8 @@ impl<const K: usize> Iterator for PolyhedraIter<'_, K> {
     }
 
     fn size_hint(&self) -> (usize, Option<usize>) {
-        (self.tree.len(), Some(self.tree.len()))
+        // the remaining items are exactly those of the underlying depth-first traversal
+        self.iter.iter.size_hint()
     }
 }
 
